@@ -267,6 +267,29 @@ func c10Check(t interface {
 }, cores [][]*faultSink, fcores []failCore, nEntries int, level zapcore.Level, desc string, wrap string) {
 	cfg := zapcore.EncoderConfig{MessageKey: "m", LevelKey: "l", EncodeLevel: zapcore.LowercaseLevelEncoder}
 	var zc []zapcore.Core
+	// every second custom core additionally sits behind entry hooks that fail on the same entries as the core (a
+	// hooked core reports its hooks' errors as its own write error). The hooks are handed over by spreading a slice
+	// that the caller recycles afterwards: the core keeps the hooks it was registered with.
+	hookRuns := make([]int, len(fcores))
+	hookedFail := func(i int) zapcore.Core {
+		// (not behind a wrapper that calls Tee.Write as a whole: a hooked core relies on its wrapped core having
+		// signed up for the entry during Check and does not forward Write itself)
+		if i%2 == 0 || strings.HasPrefix(wrap, "delegating") || strings.HasPrefix(wrap, "nested") {
+			return fcores[i]
+		}
+		fc := fcores[i]
+		hs := []func(zapcore.Entry) error{func(zapcore.Entry) error {
+			e := hookRuns[i]
+			hookRuns[i]++
+			if e < len(fc.script) && fc.script[e] {
+				return fmt.Errorf("hookfail-%s-%d", fc.name, e)
+			}
+			return nil
+		}}
+		hc := zapcore.RegisterHooks(fc, hs...)
+		hs[0] = func(zapcore.Entry) error { return nil } // the slice now serves the next registration
+		return hc
+	}
 	// interleave custom failing cores between IO cores
 	for i, ss := range cores {
 		ws := make([]zapcore.WriteSyncer, len(ss))
@@ -275,11 +298,11 @@ func c10Check(t interface {
 		}
 		zc = append(zc, zapcore.NewCore(zapcore.NewJSONEncoder(cfg), zapcore.NewMultiWriteSyncer(ws...), zapcore.DebugLevel))
 		if i < len(fcores) {
-			zc = append(zc, fcores[i])
+			zc = append(zc, hookedFail(i))
 		}
 	}
 	for i := len(cores); i < len(fcores); i++ {
-		zc = append(zc, fcores[i])
+		zc = append(zc, hookedFail(i))
 	}
 	eout := &memSink{}
 	var top zapcore.Core
@@ -340,9 +363,12 @@ func c10Check(t interface {
 				}
 			}
 		}
-		for _, fc := range fcores {
+		for i, fc := range fcores {
 			if e < len(fc.script) && fc.script[e] {
 				wantErrs = append(wantErrs, fmt.Sprintf("corefail-%s-%d", fc.name, e))
+				if i%2 == 1 && !strings.HasPrefix(wrap, "delegating") && !strings.HasPrefix(wrap, "nested") {
+					wantErrs = append(wantErrs, fmt.Sprintf("hookfail-%s-%d", fc.name, e))
+				}
 			}
 		}
 		reports := eout.writes[before:]
